@@ -112,7 +112,7 @@ Example C18_micro_step_reversible_nonvacuous :
   (let s := micro_step ex_ghat ex_z 3 true [-1 # 2; -2 # 1] [0; 1] in
    let s' := micro_step ex_ghat ex_z 3 false (fst s) (snd s) in
    map Qred (fst s) = [13 # 82; 38 # 41] /\
-   map Qred (fst s') = [-1 # 2; -2 # 1] /\ map Qred (snd s') = [0; 1]).
+   Forall2 Qeq (fst s') [-1 # 2; -2 # 1] /\ Forall2 Qeq (snd s') [0; 1]).
 Proof. exact (conj ex_micro_hyps micro_roundtrip_concrete). Qed.
 Print Assumptions C18_micro_step_reversible_nonvacuous.
 
